@@ -655,6 +655,17 @@ def c05_check(case):
         g2 = layout.interpret(t2, m)
         if graph_content(g0, m) != graph_content(g2, m):
             return f'reconfigure changed the graph: {t2.node!r}'
+    # every variable as new top (on the decoded graph, which carries markers)
+    if not is_noop(case['model']) and wf_graph(g0, m):
+        for v in sorted(g0.variables()):
+            try:
+                t3 = layout.configure(g0, top=v, model=m)
+            except Exception as e:  # noqa: BLE001
+                return f'configure(top={v!r}) raised {type(e).__name__}: {e}'
+            g3 = layout.interpret(t3, m)
+            want = graph_content(g0, m)
+            if graph_content(g3, m) != (v,) + want[1:]:
+                return f'new top {v!r} changed the graph: {t3.node!r}'
     return None
 
 
